@@ -511,3 +511,119 @@ CONST_SCOPE = {
 def consts_for_property(F, pid, rule_id):
 	res, floor = CONST_SCOPE[pid]
 	return const_rule(F, rule_id, res, floor)
+
+# ----------------------------------------------------------------------------- fixed-array range indexing stays in bounds
+_INT_MAX = {'u8': 255, 'u16': 65535, 'bool': 1}
+_ARR = {}
+
+def _fresh_read(e):
+	while isinstance(e, tuple) and e[0] in ('field', 'downcast', 'deref', 'ref'):
+		e = e[1]
+	if isinstance(e, tuple) and e[0] == 'call':
+		tail = (e[1] or '').rsplit('::', 1)[-1]
+		if tail in ('branch', 'unwrap', 'expect') and e[2]:
+			return _fresh_read(e[2][0])
+		return tail in ('read', 'read_from_fixed_length_buffer')
+	return False
+
+def upper_bound(e, depth=0):
+	"""a sound upper bound of an unsigned integer expression, or None when nothing is known: constants, casts from u8 / u16 (the source
+	type bounds the value), min(a, b), sums and products of bounded terms, `x % c`, `c - x`"""
+	if depth > 12 or not isinstance(e, tuple):
+		return None
+	k = e[0]
+	if k == 'const':
+		return e[1] if isinstance(e[1], int) else None
+	if k == 'cast':
+		ub = upper_bound(e[1], depth + 1)
+		# the source type bounds a value that was just decoded from the wire (the payload of a `read` call); a stored field may
+		# carry a tighter invariant established by its constructor, so nothing is assumed about it
+		tm = _INT_MAX.get(e[3]) if len(e) > 3 and _fresh_read(e[1]) else None
+		if ub is None:
+			return tm
+		return min(ub, tm) if tm is not None else ub
+	if k in ('deref', 'ref'):
+		return upper_bound(e[1], depth + 1)
+	if k == 'call':
+		tail = (e[1] or '').rsplit('::', 1)[-1]
+		if tail == 'min' and len(e[2]) == 2:
+			a, b = upper_bound(e[2][0], depth + 1), upper_bound(e[2][1], depth + 1)
+			if a is None:
+				return b
+			return a if b is None else min(a, b)
+		return None
+	if k == 'bin':
+		op = e[1]
+		a, b = upper_bound(e[2], depth + 1), upper_bound(e[3], depth + 1)
+		if op.startswith('Add') and a is not None and b is not None:
+			return a + b
+		if op.startswith('Mul') and a is not None and b is not None:
+			return a * b
+		if op.startswith('Sub') and a is not None:
+			if isinstance(e[3], tuple) and e[3][0] == 'const' and isinstance(e[3][1], int):
+				return max(a - e[3][1], 0)
+			return a            # unsigned: a - x <= a
+		if op == 'Rem' and b is not None and b > 0:
+			return b - 1
+		if op == 'BitAnd':
+			xs = [x for x in (a, b) if x is not None]
+			return min(xs) if xs else None
+		return None
+	return None
+
+def array_index_census(F):
+	import re
+	if F.dir in _ARR:
+		return _ARR[F.dir]
+	rows = []
+	for n, r in F.fns.items():
+		if not (n.startswith('lightning') or n.startswith('<lightning')):
+			continue
+		try:
+			fu = F.func(n)
+		except AnchorMissing:
+			continue
+		ex = None
+		for b, ci in fu.calls():
+			f = norm(ci.get('f') or '')
+			if not re.search(r'core::array::<impl core::ops::index::Index(Mut)? for \[T; N\]>::index(_mut)?$', f):
+				continue
+			m = re.match(r'^\[\[(\w+); (\d+)_usize\], core::ops::range::(RangeTo|Range|RangeToInclusive)<usize>', ci.get('g') or '')
+			if not m or len(ci['args']) < 2:
+				continue
+			ex = ex or Expr(fu, max_depth=10)
+			rng = ex.of_operand(ci['args'][1])
+			if rng[0] != 'agg' or not rng[3]:
+				continue
+			end = rng[3][-1]
+			ub = upper_bound(end)
+			if ub is not None and m.group(3) == 'RangeToInclusive':
+				ub += 1
+			rows.append({'file': r['file'], 'fn': n, 'line': fu.line_of(b), 'n': int(m.group(2)), 'ub': ub, 'end': expr_str(end)[:70]})
+	_ARR[F.dir] = rows
+	return rows
+
+def array_index_rule(F, rule_id, file_res, floor=1):
+	import re
+	rows = [x for x in array_index_census(F) if any(re.search(p, x['file']) for p in file_res)]
+	known = [x for x in rows if x['ub'] is not None]
+	if len(rows) < floor:
+		return [Result(rule_id, False, 'anchor:array-index', 'only %d range-indexing sites of fixed-size arrays found in %s (expected >= %d)' % (len(rows), file_res, floor))]
+	out = []
+	for x in known:
+		if x['ub'] > x['n']:
+			out.append(Result(rule_id, False, 'bounds:%s' % x['fn'].split(' as ')[0].rsplit('::', 1)[-1].strip('<>'), '%s: a [_; %d] buffer is sliced up to `%s`, which can be as large as %d: out-of-range panic for inputs the types allow (a length byte read from the wire can be 255)' % (x['fn'].split(' as ')[0].rsplit('::', 1)[-1], x['n'], x['end'], x['ub']), 1, where=F.where(x['fn'], x['line'])))
+	if not out:
+		out.append(Result(rule_id, True, 'ok:array-index', '%d range-indexing sites of fixed-size arrays in %s; %d have a statically bounded end (constant, cast from u8/u16, min(..), sums / products of those) and all of these fit the array' % (len(rows), '|'.join(file_res), len(known)), len(rows)))
+	return out
+
+ARRAY_SCOPE = {
+	'C13': ([r'util/ser\.rs$', r'ln/msgs\.rs$', r'onion_message/packet\.rs$', r'lightning-types/', r'crypto/'], 5),
+	'C14': ([r'ln/onion_utils\.rs$', r'blinded_path/'], 5),
+	'C15': ([r'ln/peer_channel_encryptor\.rs$', r'crypto/'], 3),
+	'C18': ([r'offers/', r'onion_message/dns_resolution\.rs$', r'lightning-invoice/'], 5),
+}
+
+def arrays_for_property(F, pid, rule_id):
+	res, floor = ARRAY_SCOPE[pid]
+	return array_index_rule(F, rule_id, res, floor)
